@@ -285,7 +285,7 @@ pub fn judge(root: &Path, c: &Case) -> Result<(), (String, String)> {
             }
             // read-only levels: only the access time of the entry found may advance
             for d in &ro_cand {
-                if path == format!("{}/{}", d, c.name) && single && e.call == "futimens" {
+                if path == format!("{}/{}", d, c.name) && single && matches!(e.call, "futimens" | "utimensat") {
                     return e.times.map(|t| t[1].1 == libc::UTIME_OMIT).unwrap_or(false);
                 }
                 if path == format!("{}/{}", d, c.name) && single && e.call == "open" && e.arg as i32 & (libc::O_CREAT | libc::O_TRUNC) == 0 {
